@@ -11,8 +11,11 @@ from checks import arithcommon as A
 from checks import expsubscommon as E
 
 OBLIGATIONS = [
+    "C11/P_cache_irrelevant.v",
+    "C11/P_visitor_kinds.v",
+    "C11/P_nonvacuous.v",
 ]
-REFUTATIONS = []
+REFUTATIONS = ["C11/P_refuted.v"]
 PROOF_MODULES = []   # compiled by hand until listed in coq/_CoqProject (see the report)
 
 BIG = 6000
@@ -157,6 +160,7 @@ def run(ctx):
     ctx.cov["value_points_evaluated"] = stats.get("points", 0)
     ctx.cov["cases_no_key_occurs"] = stats.get("absent", 0)
     ctx.cov["cases_keys_consistent"] = stats.get("consistent", 0)
+    ctx.cov["cases_single_pow_key"] = stats.get("single_pow_key", 0)
     ctx.cov["cases_by_kind"] = stats.get("kinds", {})
     ctx.cov["rule"] = ("cases (visitor kind, expression recipe, map of 1..3 pairs): a fixed corpus (every bvisit of XReplaceVisitor on the arithmetic "
                        "fragment, the Pow special case of SubsVisitor, complex numbers with I as a key, number keys, term keys `2*x`, swaps, the un-flattened "
@@ -253,11 +257,13 @@ def explore(ctx, drv, model, cases, stats, search=False):
                 ctx.cov["samples"].append({"case": line, "cache": cache, "result": r, "model": mout[:300]})
     fo = ctx.run_lines(model, fq, timeout=2400, shards=16)
     for f in fo:
-        if len(f) == 2:
+        if len(f) == 3:
             if f[0] == "0":
                 stats["absent"] = stats.get("absent", 0) + 1
             if f[1] == "1":
                 stats["consistent"] = stats.get("consistent", 0) + 1
+            if f[2] == "1":
+                stats["single_pow_key"] = stats.get("single_pow_key", 0) + 1
 
 
 def replay(ctx, rep):
